@@ -533,9 +533,22 @@ def c17(ctx):
             w.do('connect 0 %s 0 311 0' % s_tok('c')); w.do('recv 0 20020000'); w.do('setwin 0 16'); w.do('setid %d' % start)
             w.run(40)
             out.append(('wrap%d' % seed, w.lines, w.trace))
+        # the wrap with old requests still unfinished: requests of every kind (awaiting PUBACK, PUBREC, PUBCOMP, SUBACK, UNSUBACK, held
+        # back, preserved by a persistent session) are created on two addresses with low identifiers, then the counter is placed just
+        # before the wrap (what 65535 finished allocations would do) and new requests of every kind are issued on both addresses
+        for i in range(n):
+            seed = ctx['seed'] * 100003 + 13000 + i
+            w = walker.Walker(seed, profile=3, naddr=2, clean=(i % 3 == 0), allow_api_after_lost=False,
+                              weights=dict(QUIET, build=6, connect=8, connack=10, publish=22, subscribe=8, unsubscribe=8, puback=2, pubrec=8, pubcomp=1,
+                                           suback=1, unsuback=1, fire=2, lost=(2 if i % 2 else 0), setwin=3, inpub=0, pubrel=0, pingresp=0, jit=0))
+            w.run(45)
+            w.do('setid %d' % (65531 + i % 5))
+            w.weights.update(dict(publish=30, subscribe=12, unsubscribe=12, puback=1, pubrec=1, pubcomp=0, suback=0, unsuback=0, lost=0, fire=1))
+            w.run(30)
+            out.append(('wrapold%d' % seed, w.lines, w.trace))
         return out
     return generic('C17', ctx, 250, 6000, 60,
-                   'corpus; seeded walks issuing requests of every kind; additionally walks started with the identifier counter placed at 65530..65535 while requests are unfinished',
+                   'corpus; seeded walks issuing requests of every kind; additionally walks started with the identifier counter placed at 65530..65535, and two-address walks in which requests of every kind are left unfinished under low identifiers before the counter is placed at 65531..65535 and new requests of every kind follow',
                    weights=dict(QUIET, publish=16, subscribe=8, unsubscribe=8, puback=6, pubrec=4, pubcomp=4, suback=4, unsuback=4, setwin=4, lost=3, fire=4), extra=extra, naddr=2)
 
 
